@@ -17,6 +17,14 @@ func (x *Exec) topSpecEnv(st *State, guard *Term, assume bool) *SpecEnv {
 	return e
 }
 
+// localSpecEnv is for clauses evaluated in the middle of a function (invariants, cuts): a name denotes
+// the current value of the local variable (parameters may have been reassigned).
+func (x *Exec) localSpecEnv(st *State, guard *Term, assume bool) *SpecEnv {
+	e := x.topSpecEnv(st, guard, assume)
+	e.localFirst = true
+	return e
+}
+
 // loopWrites collects heap components and local cells written in the loop body.
 func (x *Exec) loopWrites(fc *funcCtx, l *loopInfo) (map[string]bool, []*ssa.Alloc, bool) {
 	w := map[string]bool{}
@@ -44,7 +52,7 @@ func (x *Exec) cutLoopHeader(fc *funcCtx, n *node, l *loopInfo) {
 	st := n.st
 	// 1. invariant holds on entry
 	for _, c := range l.invs {
-		env := x.topSpecEnv(st, n.guard, false)
+		env := x.localSpecEnv(st, n.guard, false)
 		g := env.EvalBool(c.Expr)
 		x.reportSpecErrors(env, x.TopName, c)
 		x.Oblige("inv-entry", fmt.Sprintf("loop %d: %s", l.ordinal, clauseLabel(c)), "", l.header.Instrs[0].Pos(), n.guard, g, c.Props)
@@ -92,7 +100,7 @@ func (x *Exec) cutLoopHeader(fc *funcCtx, n *node, l *loopInfo) {
 	}
 	// 3. assume invariant
 	for _, c := range l.invs {
-		env := x.topSpecEnv(st, n.guard, true)
+		env := x.localSpecEnv(st, n.guard, true)
 		g := env.EvalBool(c.Expr)
 		x.reportSpecErrors(env, x.TopName, c)
 		x.VC.Assume(n.guard, g, "loop-inv")
@@ -123,7 +131,7 @@ func (x *Exec) assertInvAtBackEdge(fc *funcCtx, n *node, l *loopInfo, cond *Term
 		}
 	}
 	for _, c := range l.invs {
-		env := x.topSpecEnv(st, guard, false)
+		env := x.localSpecEnv(st, guard, false)
 		g := env.EvalBool(c.Expr)
 		x.reportSpecErrors(env, x.TopName, c)
 		x.Oblige("inv-preserve", fmt.Sprintf("loop %d: %s", l.ordinal, clauseLabel(c)), fmt.Sprint(n.b.Index), l.header.Instrs[0].Pos(), guard, g, c.Props)
@@ -132,10 +140,28 @@ func (x *Exec) assertInvAtBackEdge(fc *funcCtx, n *node, l *loopInfo, cond *Term
 
 func (x *Exec) sectionCut(fc *funcCtx, n *node, c *Clause) {
 	st := n.st
-	env := x.topSpecEnv(st, n.guard, false)
+	env := x.localSpecEnv(st, n.guard, false)
 	g := env.EvalBool(c.Expr)
 	x.reportSpecErrors(env, x.TopName, c)
 	x.Oblige("cut", fmt.Sprintf("%s#%d: %s", c.Block, c.Ord, clauseLabel(c)), "", n.b.Instrs[0].Pos(), n.guard, g, c.Props)
+	prevSt := st.PrevCut
+	if prevSt == nil {
+		prevSt = x.Entry
+	}
+	// frame targets (evaluated before the havoc; prev() refers to the previous cut)
+	type ftarget struct {
+		mt modTarget
+	}
+	var fts []modTarget
+	for _, fe := range c.Frames {
+		mt, ok := x.evalModifies(&Clause{Expr: fe}, env)
+		x.reportSpecErrors(env, x.TopName, c)
+		if !ok || mt.kind != "range" {
+			x.Oblige("spec-error", "cut frame target must be a slice range", "", 0, True, False, nil)
+			continue
+		}
+		fts = append(fts, mt)
+	}
 	// havoc what was written since the previous cut
 	keys := make([]string, 0, len(st.Written))
 	for k := range st.Written {
@@ -156,20 +182,64 @@ func (x *Exec) sectionCut(fc *funcCtx, n *node, c *Clause) {
 		}
 		if whole {
 			st.Heap[key] = x.VC.Fresh("cut."+key, h.S)
+			delete(st.Shapes, key)
 			continue
 		}
 		seen := map[*Term]bool{}
-		cur := h
 		for _, o := range objs {
 			if seen[o] {
 				continue
 			}
 			seen[o] = true
-			cur = x.VC.Def("cut."+key, Store(cur, o, x.VC.Fresh("cutv."+key, h.S.Elem)))
+			// frame target for this object?
+			var ft *modTarget
+			for i := range fts {
+				if fts[i].key == key && fts[i].sl.Arr == o {
+					ft = &fts[i]
+				}
+			}
+			if ft == nil || h.S.Elem.Kind != "Array" {
+				st.noRecord++
+				x.objSet(st, key, o, x.VC.Fresh("cutv."+key, h.S.Elem))
+				st.noRecord--
+				continue
+			}
+			before := x.objGet(prevSt, key, h.S.Elem, o)
+			lo := BVBin("bvadd", ft.sl.Off, ft.lo)
+			hi := BVBin("bvadd", ft.sl.Off, ft.hi)
+			// every write to this component since the previous cut stays inside the declared range
+			for _, w := range st.Writes {
+				if w.epoch != st.CutEpoch || w.key != key {
+					continue
+				}
+				var in *Term
+				if w.lo == nil {
+					in = False
+				} else {
+					in = And(BVCmp("bvule", lo, w.lo), BVCmp("bvule", w.lo, w.hi), BVCmp("bvule", w.hi, hi))
+				}
+				goal := in
+				if w.obj != o {
+					if w.obj == nil {
+						goal = False
+					} else {
+						goal = Or(Not(Eq(w.obj, o)), in)
+					}
+				}
+				x.Oblige("cutframe", fmt.Sprintf("%s#%d: %s", c.Block, c.Ord, types.ExprString(c.Frames[0])), "", n.b.Instrs[0].Pos(), w.guard, goal, c.Props)
+			}
+			na := x.VC.Fresh("cutv."+key, h.S.Elem)
+			kk := x.VC.Fresh("k", bv64)
+			inside2 := And(BVCmp("bvule", lo, kk), BVCmp("bvult", kk, hi))
+			_ = before
+			x.VC.AssumeForall([]*Term{kk}, n.guard, Implies(Not(inside2), Eq(Select(na, kk), Select(before, kk))), "cutframe")
+			st.noRecord++
+			x.objSet(st, key, o, na)
+			st.noRecord--
 		}
-		st.Heap[key] = cur
 	}
 	st.Written = map[string][]*Term{}
+	st.CutEpoch++
 	for _, ins := range n.b.Instrs {
 		phi, ok := ins.(*ssa.Phi)
 		if !ok {
@@ -181,10 +251,13 @@ func (x *Exec) sectionCut(fc *funcCtx, n *node, c *Clause) {
 			st.Vars[phi.Comment] = v
 		}
 	}
-	env2 := x.topSpecEnv(st, n.guard, true)
+	env2 := x.localSpecEnv(st, n.guard, true)
 	g2 := env2.EvalBool(c.Expr)
 	x.reportSpecErrors(env2, x.TopName, c)
 	x.VC.Assume(n.guard, g2, "cut")
+	snap := st.Clone()
+	snap.PrevCut = nil
+	st.PrevCut = snap
 }
 
 var _ = types.Typ
